@@ -617,13 +617,10 @@ theorem actP_closeObject (hmv : cfg.missingValue = false) (hact : expected s.mod
           by_cases htk : topIsKey (top :: below) = true
           · simp only [htk, ↓reduceIte]
           simp only [htk, Bool.false_eq_true, ↓reduceIte]
-          simp only [addFeat_setScr]
-          have e1 : ({ (if topIsKey (top :: below) = true then setScr (liveScr s.mode s) (a.addFeat 'v') else setScr (liveScr s.mode s) a) with
-                starts := rest, stack := below } : St) =
-              setScr (liveScr s.mode s) { (if topIsKey (top :: below) = true then a.addFeat 'v' else a) with starts := rest, stack := below } := by
-            split <;> rfl
+          have e1 : ({ setScr (liveScr s.mode s) a with starts := rest, stack := below } : St) =
+              setScr (liveScr s.mode s) { a with starts := rest, stack := below } := rfl
           rw [e1, add_frame]
-          cases h2 : St.add { (if topIsKey (top :: below) = true then a.addFeat 'v' else a) with starts := rest, stack := below } top.toJV with
+          cases h2 : St.add { a with starts := rest, stack := below } top.toJV with
           | error e => simp [mapS]
           | ok a2 =>
             simp only [mapS]
